@@ -32,7 +32,7 @@ ALIASES = collections.OrderedDict([
 
 def descriptions(tier):
     """Yields (parts, meta).  parts: list of dicts as the user would write them."""
-    maxp = 2 if tier == 'quick' else 3
+    maxp = 3
     for nd in range(0, 4):
         names = list(DATASETS)[:nd]
         avail = [a for a, m in ALIASES.items() if all(x in names for x in m)]
@@ -40,16 +40,17 @@ def descriptions(tier):
         for als in alias_sets:
             things = [('ds', n) for n in names] + [('al', a) for a in als]
             for P in range(1, maxp + 1):
+                if tier == 'quick' and P == 3 and len(things) > 3:
+                    continue
                 for assign in itertools.product(range(P), repeat=len(things)):
                     if P > 1 and len(set(assign)) < min(P, len(things)) and len(things) >= P:
                         continue        # keep every part in use when that is possible
                     part_has_alias = [any(k == 'al' and p == i for (k, _), p in zip(things, assign)) for i in range(P)]
                     free = [i for i in range(P) if not part_has_alias[i]]
                     for flags in itertools.product((False, True), repeat=len(free)):
-                        if tier == 'quick' and len(free) > 1 and len(set(flags)) > 1 and P > 2:
-                            continue
+
                         for extra in (None, 'dict', 'scalar'):
-                            if extra is not None and (P == 1 and tier == 'quick' and nd != 2):
+                            if extra is not None and tier == 'quick' and ((P == 1 and nd != 2) or P == 3):
                                 continue
                             parts = []
                             for i in range(P):
@@ -241,7 +242,7 @@ def check_description(args):
                         bad('examples-not-isolated', f'{backend}: after mutating the yielded examples a new request '
                                                      f'gives {got2}', backend=backend, request=step)
             # a second database object with the same names but other content, alive at the same time
-            if all_names:
+            if all_names and (len(parts) <= 2 or meta.get("extra") is None):
                 twin_parts = copy.deepcopy(parts)
                 for tp in twin_parts:
                     for dsd in tp['datasets'].values():
